@@ -85,6 +85,12 @@ fn main() {
             });
             if r.is_err() { println!("PANICKED"); std::process::exit(1); }
         }
+        Some("c17") => {
+            // replay c17 <seed> <combo:weight,...>
+            let entries: Vec<(CardPair, f32)> = args[3].split(',').filter(|t| !t.is_empty()).map(|t| { let (p, w) = t.split_once(':').unwrap(); (p.parse().unwrap(), w.parse().unwrap()) }).collect();
+            match search::check_c17(&entries, args[2].parse().unwrap()) { Ok(s) => println!("OK {}", s), Err(s) => { println!("MISMATCH {}", s); std::process::exit(1); } }
+        }
+        Some("c17-search") => { std::process::exit(search::c17_search(args[2].parse().unwrap(), args[3].parse().unwrap())); }
         Some("iter") => {
             // replay iter <c02|c04|c08> <flop> <full|scopes> <ranges...>
             let case = search::IterCase::parse(&args[3..]);
